@@ -39,6 +39,15 @@ impl Tier {
     }
 }
 
+static DEEP: std::sync::atomic::AtomicBool = std::sync::atomic::AtomicBool::new(false);
+
+/// True in the thorough run of a property whose quick tier already runs the
+/// `Tier::Thorough` bounds ("promoted" property): harnesses use it to select bounds
+/// deeper than `Tier::Thorough`.
+pub fn deep() -> bool {
+    DEEP.load(std::sync::atomic::Ordering::Relaxed)
+}
+
 /// A violation (or crash) found by a case.
 #[derive(Clone, Debug)]
 pub struct Violation {
@@ -568,6 +577,7 @@ fn spawn_worker(bin: &str, prop: &str, tier: Tier, flavour: &str, is_default: bo
     if let Some((s, i)) = resume {
         cmd.arg(s.to_string()).arg(i.to_string());
     }
+    cmd.env("MCX_DEEP", if deep() { "1" } else { "0" });
     cmd.stdout(Stdio::piped()).stderr(Stdio::null()).stdin(Stdio::null());
     let mut proc = cmd.spawn().expect("spawn worker");
     let mut so = proc.stdout.take().unwrap();
@@ -665,6 +675,14 @@ fn parse_bins(arg: Option<String>) -> Vec<(String, String)> {
 
 /// Entry point of every `gv-*` binary.
 pub fn main(build: impl Fn(&str, Tier) -> Option<CheckDef>) -> ! {
+    main_promoted(&[], build)
+}
+
+/// Like `main`; for the properties listed in `promoted` the command-line tier `quick`
+/// runs the `Tier::Thorough` bounds and `thorough` runs them with `deep()` set (the
+/// harness adds deeper bounds under `deep()`). Evidence and summary lines report the
+/// command-line tier.
+pub fn main_promoted(promoted: &[&str], build: impl Fn(&str, Tier) -> Option<CheckDef>) -> ! {
     install_panic_hook();
     let args: Vec<String> = std::env::args().collect();
     if args.len() < 3 {
@@ -675,7 +693,7 @@ pub fn main(build: impl Fn(&str, Tier) -> Option<CheckDef>) -> ! {
     if args[2] == "--replay" {
         std::process::exit(replay_main(&build, &prop, &args[3], args.get(4).map(|s| s.as_str()) == Some("--inproc")));
     }
-    let tier = match args[2].as_str() {
+    let mut tier = match args[2].as_str() {
         "quick" => Tier::Quick,
         "thorough" => Tier::Thorough,
         _ => {
@@ -683,11 +701,20 @@ pub fn main(build: impl Fn(&str, Tier) -> Option<CheckDef>) -> ! {
             std::process::exit(2)
         }
     };
+    let cli_tier = tier.name();
+    let is_worker = args.get(3).map(|s| s.as_str()) == Some("--worker");
+    if is_worker {
+        // the parent already mapped the tier; it tells us whether this is a deep run
+        DEEP.store(std::env::var("MCX_DEEP").ok().as_deref() == Some("1"), std::sync::atomic::Ordering::Relaxed);
+    } else if promoted.contains(&prop.as_str()) {
+        DEEP.store(tier == Tier::Thorough, std::sync::atomic::Ordering::Relaxed);
+        tier = Tier::Thorough;
+    }
     let Some(def) = build(&prop, tier) else {
         eprintln!("this binary does not serve {}", prop);
         std::process::exit(2)
     };
-    if args.get(3).map(|s| s.as_str()) == Some("--worker") {
+    if is_worker {
         let w: u64 = args[4].parse().unwrap();
         let nw: u64 = args[5].parse().unwrap();
         let flavour = args[6].clone();
@@ -700,10 +727,10 @@ pub fn main(build: impl Fn(&str, Tier) -> Option<CheckDef>) -> ! {
         std::process::exit(single_main(&def, &prop, tier));
     }
     let bins = parse_bins(args.iter().position(|a| a == "--bins").and_then(|p| args.get(p + 1).cloned()));
-    std::process::exit(parent_main(&def, &prop, tier, &bins));
+    std::process::exit(parent_main(&def, &prop, tier, cli_tier, &bins));
 }
 
-fn parent_main(def: &CheckDef, prop: &str, tier: Tier, bins: &[(String, String)]) -> i32 {
+fn parent_main(def: &CheckDef, prop: &str, tier: Tier, cli_tier: &str, bins: &[(String, String)]) -> i32 {
     let t0 = Instant::now();
     let root = verif_root();
     let nw: u64 = std::env::var("VERIF_WORKERS").ok().and_then(|s| s.parse().ok()).unwrap_or(16);
@@ -860,7 +887,7 @@ fn parent_main(def: &CheckDef, prop: &str, tier: Tier, bins: &[(String, String)]
         }
         new_v += 1;
         let path = root.join("replays").join(format!("{}-{:016x}.json", prop, fnv(key)));
-        let rj = json!({"property": prop, "tier": tier.name(), "flavour": v.flavour, "sub": v.sub, "index": v.index,
+        let rj = json!({"property": prop, "tier": tier.name(), "deep": deep(), "flavour": v.flavour, "sub": v.sub, "index": v.index,
             "extra": v.extra, "entry": v.entry, "site": v.site, "kind": v.kind, "detail": v.detail});
         let _ = std::fs::write(&path, serde_json::to_string_pretty(&rj).unwrap());
         println!("VIOLATION property={} replay={}", prop, path.display());
@@ -886,6 +913,7 @@ fn parent_main(def: &CheckDef, prop: &str, tier: Tier, bins: &[(String, String)]
         "flavours": flavours_used,
         "workers": nw,
         "known_findings_matched": known_v,
+        "bounds_profile": format!("{}{}", tier.name(), if deep() { "+deep" } else { "" }),
     });
     if def.level == "model_checking" {
         coverage["states"] = json!(tot.states);
@@ -894,7 +922,7 @@ fn parent_main(def: &CheckDef, prop: &str, tier: Tier, bins: &[(String, String)]
     }
     let ev = json!({
         "property_id": prop,
-        "tier": tier.name(),
+        "tier": cli_tier,
         "seed": seed,
         "level": def.level,
         "coverage": coverage,
@@ -911,7 +939,7 @@ fn parent_main(def: &CheckDef, prop: &str, tier: Tier, bins: &[(String, String)]
     }
     println!(
         "{} {}: evaluations={} nontrivial={} states={} transitions={} subs={} violations={} known={} wall={:.1}s",
-        prop, tier.name(), tot.evals, tot.nontrivial, tot.states, tot.transitions, def.subs.len(), new_v, known_v, wall
+        prop, cli_tier, tot.evals, tot.nontrivial, tot.states, tot.transitions, def.subs.len(), new_v, known_v, wall
     );
     if new_v > 0 {
         return 1;
@@ -970,6 +998,7 @@ fn replay_main(build: &impl Fn(&str, Tier) -> Option<CheckDef>, prop: &str, file
         return 2;
     };
     let tier = if r["tier"].as_str() == Some("thorough") { Tier::Thorough } else { Tier::Quick };
+    DEEP.store(r["deep"].as_bool().unwrap_or(false), std::sync::atomic::Ordering::Relaxed);
     if !inproc {
         // Execute in a child so that aborts and stack overflows are observed.
         let exe = std::env::current_exe().unwrap();
